@@ -57,3 +57,18 @@ pub fn plain_a_names() -> Vec<String> {
 pub fn grp_names() -> Vec<String> {
     ["a", "aa", "ha"].iter().map(|s| s.to_string()).collect()
 }
+
+/// multi-byte command names whose continuation has to be cut inside a character in tight buffers
+#[derive(Debug, Command)]
+pub enum CmdU {
+    #[command(name = "é中")]
+    A,
+    #[command(name = "a𝄞")]
+    B,
+    #[command(name = "ééé")]
+    C,
+}
+
+pub fn cmdu_names() -> Vec<String> {
+    ["é中", "a𝄞", "ééé"].iter().map(|s| s.to_string()).collect()
+}
